@@ -30,6 +30,7 @@ import (
 	"sync/atomic"
 	"time"
 
+	"github.com/glowlabs-org/gca-backend/client"
 	"github.com/glowlabs-org/gca-backend/glow"
 	"verifharness/core"
 )
@@ -958,7 +959,43 @@ func eventlogSuite(seed uint64, tier, outDir string) (*core.Result, error) {
 			res.Required = append(res.Required, h.Class)
 		}
 	}
-	res.Required = append(res.Required, "production-shape", "op.printf", "op.expire", "op.expire-exact", "op.dump")
+	// the client's status dump (which reads the log's map and order) while other goroutines log fresh lines:
+	// no call panics
+	{
+		dir, derr := os.MkdirTemp("", "vh-eventlog-client-")
+		if derr == nil {
+			c, cerr := client.VerifNewBareClient(dir, false)
+			if cerr == nil {
+				var stop int32
+				var wg sync.WaitGroup
+				for g := 0; g < 4; g++ {
+					wg.Add(1)
+					go func(g int) {
+						defer wg.Done()
+						for i := 0; atomic.LoadInt32(&stop) == 0; i++ {
+							c.EventLog.Printf("worker %d line %d", g, i)
+						}
+					}(g)
+				}
+				pan := ""
+				dumps := 0
+				deadline := time.Now().Add(400 * time.Millisecond)
+				for time.Now().Before(deadline) && pan == "" {
+					pan = elRecover(func() { c.DumpEventLogs() })
+					dumps++
+				}
+				atomic.StoreInt32(&stop, 1)
+				wg.Wait()
+				res.Count("client.dump-while-logging")
+				res.Case(map[string]interface{}{"kind": "client-dump-while-logging", "dumps": dumps, "panic": pan}, "client-dump", true)
+				if pan != "" {
+					res.Fail(fmt.Sprintf("the client's status dump panics while lines are being logged (after %d dumps): %s", dumps, pan), "client-dump-panic", map[string]interface{}{"dumps": dumps})
+				}
+			}
+			os.RemoveAll(dir)
+		}
+	}
+	res.Required = append(res.Required, "production-shape", "op.printf", "op.expire", "op.expire-exact", "op.dump", "client.dump-while-logging")
 	res.Extra["tick_ms"] = float64(baseTick) / 1e6
 	res.Rule = "corpus, then hand-built scenarios (fill/expire/relog, evictions, duplicates, truncation, unstorable lines, expiry cuts before/between/after), the production shape, and seeded random histories of 10-60 Printf (lengths 0..2x line limit, repeated/fresh/colliding-after-truncation lines) mixed with ExpireLogs and DumpLogEntries over 16 configurations, all on a time grid (tick adaptive, histories whose calls leave their half cell are discarded and repeated); thorough adds every sequence of up to 4 operations over a 9-symbol alphabet; a history is non-trivial when some dump is non-empty or a call panics, distinct by its full observed trace"
 	return res, nil
